@@ -31,18 +31,20 @@ TOTAL_EXTRA = [
 ]
 
 
+SIBLINGS = (("crate::Fr::from_slice", "crate::Fq::from_slice"),
+            ("<crate::Fr as core::convert::TryFrom<&[u8]>>::try_from", "<crate::Fq as core::convert::TryFrom<&[u8]>>::try_from"),
+            ("crate::fields::fp::Fr::from_slice", "crate::fields::fp::Fq::from_slice"))
+
+
 def rule_siblings(results):
     R = Rule("R-SIBLING", "hand-duplicated Fr / Fq conversions agree on every abstract input (same accept / reject / panic map)", floor=2, exhaustive=True)
-    for a, b in (("crate::Fr::from_slice", "crate::Fq::from_slice"),
-                 ("<crate::Fr as core::convert::TryFrom<&[u8]>>::try_from", "<crate::Fq as core::convert::TryFrom<&[u8]>>::try_from"),
-                 ("crate::fields::fp::Fr::from_slice", "crate::fields::fp::Fq::from_slice")):
+    for a, b in SIBLINGS:
         ra, rb = results.get(a), results.get(b)
         R.instance()
         if ra is None or rb is None:
             R.fail_closed("C13:sibling:%s" % a, "sibling pair %s / %s not analysed" % (a, b))
             continue
-        diff = [k for k in sorted(set(ra) | set(rb), key=str)
-                if (ra.get(k) and frozenset(ra[k].variants), bool(ra.get(k) and ra[k].panics)) != (rb.get(k) and frozenset(rb[k].variants), bool(rb.get(k) and rb[k].panics))]
+        diff = convert.outcome_map_diff(ra, rb)
         R.check(not diff, "C13:sibling:%s" % a, "%s and %s disagree for abstract inputs %s" % (a, b, diff[:5]), sample={"pair": [a, b], "points": len(ra)})
     return R.finish()
 
@@ -176,6 +178,8 @@ def run(ctx):
     for cfg in ("dev", "rel"):
         repo = Repo(ctx.facts(cfg))
         ls = convert.make_conv(repo)
+        for a, b in SIBLINGS:
+            convert.share_length_domains_between(ls, a, b)       # siblings are compared over one set of representative lengths
         r, results = convert.rule_accept("C13", repo, ls, SPEC, cfg)
         r.rid = "R-LEN-PART[%s]" % cfg
         r.desc = "length partition of every byte conversion: accepted lengths, and lengths on which rejection is impossible"
